@@ -823,7 +823,7 @@ def context_values(ctx):
     reqs, metas = [], []
     for key in ("x", "id", "len"):
         src = ("${S__(1, %(k)s)}\n<%%def name=\"td()\">${S__(2, %(k)s)}<%%def name=\"inner()\">${S__(3, %(k)s)}</%%def>${inner()}</%%def>\n"
-               "${td()}\n<%%block>${S__(4, %(k)s)}</%%block>\n% if S__(5, %(k)s):\n% endif\n"
+               "${td()}\n<%%block>${S__(4, %(k)s)}</%%block>\n%% if S__(5, %(k)s):\n%% endif\n"
                "${S__(6, context['%(k)s'])}\n${S__(7, context.get('%(k)s'))}\n${S__(8, context.get('%(k)s', 'DFLT'))}\n"
                "${S__(9, '%(k)s' in context.keys())}\n${S__(10, context.kwargs.get('%(k)s', 'MISSING'))}\n") % {"k": key}
         for vname, val in values:
@@ -978,6 +978,25 @@ def replay(ctx, data):
         except Exception as ex:      # noqa: BLE001
             print("raised", type(ex).__name__, ex)
             return False
+    if isinstance(case, dict) and "key" in case and "value" in case:
+        # a context entry bound to a particular value
+        from mako.lookup import TemplateLookup
+        from mako import runtime
+        val = {"None": None, "0": 0, "''": "", "[]": [], "False": False, "UNDEFINED": runtime.UNDEFINED, "'s'": "s"}[case["value"]]
+        lk = TemplateLookup(imports=G.IMPORTS, strict_undefined=case.get("strict", False))
+        lk.put_string("/lib.html", "<%def name=\"libdef()\"></%def>")
+        lk.put_string("/v.html", case["input"])
+        del G.RECORDS[:]
+        try:
+            lk.get_template("/v.html").render(**{case["key"]: val})
+        except Exception as ex:      # noqa: BLE001
+            print("raised", type(ex).__name__, ex, "after", list(G.RECORDS)[-2:])
+            return False
+        ov = G.observe(val)
+        want = [(i, ov) for i in range(1, 9)] + [(9, "VAL:True"), (10, ov)]
+        want = [(i, o) for i, o in want if ("S__(%d," % i) in case["input"]]
+        print("records:", list(G.RECORDS))
+        return list(G.RECORDS) == want
     if isinstance(case, dict) and "form" in case and "config" in case:
         from mako import exceptions as X
         c = Case(case, case["input"], {}, False, case["config"] == "loop-on", "reserved")
